@@ -84,7 +84,9 @@ class Reply(SerializableMixin, DictableMixin):
                 raise ProtocolError('Failed to parse reply.')
 
             if match.group(1) and match.group(2) == b' ':
-                assert self.code is None
+                if self.code is not None:
+                    raise ProtocolError('Reply has more than one final line.')
+
                 self.code = int(match.group(1))
 
             if self.text is None:
